@@ -182,6 +182,13 @@ example : specErrs 2 0 [false, false, false, true, false, false] = [false, true,
 example : (negAnswers (Host.init 3) [.tx (.resp ⟨false, false, 0, []⟩), .tx (.resp ⟨true, false, 0, [0xff, 5, 1]⟩),
     .tx (.resp ⟨true, false, 0, [0xF3, 1, 7]⟩)]).any isEcho = true := by decide +kernel
 
+/-- Why `SysOp.WF` is needed: a control-shaped application packet (port 15, channel 3, first data byte 5, 2 data bytes)
+is swallowed by the peer model's link layer (and resets its counters), so it is accepted but never delivered. -/
+example :
+    let s := (Sys.init 100 Peer.init).run
+      [.xmit .ok 1 1, .sub ⟨0xFF, [5, 1]⟩, .xmit .ok 1 1, .xmit .ok 1 1, .xmit .ok 1 1, .xmit .ok 1 1]
+    s.host.safelink = true ∧ accepted s.evs = [⟨0xFF, [5, 1]⟩] ∧ upView s.peer.rxq = [] := by decide +kernel
+
 /-! ## Limit of the guarantee (an observation, not a violation: the exactly-once clauses are about safelink mode)
 
 If the peer accepts the safelink request on all ten attempts but every echo is lost, the driver falls back to plain
